@@ -5,6 +5,7 @@ import (
 	"go/ast"
 	"go/parser"
 	"go/token"
+	"regexp"
 	"sort"
 	"strings"
 	"testing"
@@ -26,6 +27,12 @@ const kfPackageScope = "KF-gengo-name-package-scope"
 // package (type X = imp.X, const / var X = imp.X for every exported symbol of the imported package)
 // are not checked against the importing file's own declarations, nor against each other.
 const kfPublicForward = "KF-gengo-public-import-forward-clash"
+
+// kfPublicOpaque: the forwards are derived from the non-opaque variant of an imported hybrid file;
+// under -tags protoopaque the exported oneof wrapper types they name do not exist.
+const kfPublicOpaque = "KF-gengo-public-import-protoopaque-forward"
+
+var undefinedSel = regexp.MustCompile(`^undefined: [A-Za-z_0-9]+\.([A-Za-z_0-9]+)$`)
 
 // forwardedNames lists the package-level identifiers a generated file declares as forwards of another
 // package's symbols (tok X = pkg.X).
@@ -218,8 +225,29 @@ func fileLevel(name, level string) string {
 // explain decides whether the compile errors of package i are fully accounted for by registered
 // name-clash findings: the package must show duplicate declarations (go/parser AST) and every one of
 // them must be attributed; ids lists the findings, why says what is unexplained ("" = explained).
-func explain(g *generated, level string, i int, models map[int]map[string]*nameModel, lv map[int]map[string]string, claims map[int]map[string][]string) (ids []string, why string) {
+func explain(g *generated, level string, i int, es []typeError, models map[int]map[string]*nameModel, lv map[int]map[string]string, claims map[int]map[string][]string) (ids []string, why string) {
 	tags := goTags(level)
+	if tags == "protoopaque" && len(g.files[i].GetPublicDependency()) > 0 {
+		// forwards of a public import name symbols that only the non-opaque variant of the imported hybrid file has
+		fw := map[string]bool{}
+		for _, name := range g.names {
+			if g.pkgOf[name] == i && selected(g.out[name], tags) {
+				for n := range forwardedNames(g.out[name]) {
+					fw[n] = true
+				}
+			}
+		}
+		all := len(es) > 0
+		for _, e := range es {
+			m := undefinedSel.FindStringSubmatch(e.Msg)
+			if m == nil || !fw[m[1]] {
+				all = false
+			}
+		}
+		if all {
+			return []string{kfPublicOpaque}, ""
+		}
+	}
 	seen := map[string]bool{}
 	n := 0
 	typeClash := map[string]bool{}
@@ -382,7 +410,7 @@ func frontEndAt(files []*descriptorpb.FileDescriptorProto, level, base string, e
 		if len(es) == 0 {
 			continue
 		}
-		ids, why := explain(g, level, i, models, lv, claims)
+		ids, why := explain(g, level, i, es, models, lv, claims)
 		ok := why == ""
 		if ok && exclude {
 			for _, id := range ids {
